@@ -505,6 +505,9 @@ void scan_deps(const std::string& orig_portname, std::string cur_portname,
                     if(itr != message_map.end())  // port is in the savefile
                     {
                         //printf("dependencies: %s depends on %s\n", orig_portname.c_str(), itr->second->portname.c_str());
+                        // no port waits for itself (the enabling port
+                        // may lie inside the subtree which it enables)
+                        if(abs != orig_portname)
                         itr->second->dependees.push_back(std::distance(message_v.data(),(const message_t*)message_map.at(orig_portname)));
                     }
                     else
